@@ -326,6 +326,7 @@ def check_xstore(ctx: Check, tree: Tree) -> None:
     par_sites: dict[int, ast.AST] = {}
     conflicts: dict[int, tuple] = {}
     unpaired: dict[int, tuple] = {}
+    readds: dict[int, tuple] = {}
     for p in paths:
         # replay per loop iteration: state is reset at each ("iter", loop) of an inner loop over symbols
         events = p.events
@@ -333,7 +334,13 @@ def check_xstore(ctx: Check, tree: Tree) -> None:
         par_keys: dict[str, ast.AST] = {}
         kin_keys: dict[str, ast.AST] = {}
         deleted: set[str] = set()
+        fam_dels: dict[str, ast.AST] = {}  # domain text -> del executed once per element of that domain
+        since_iter: list[tuple] = []  # tests evaluated in the current iteration of the innermost loop
         for ev in events:
+            if ev[0] == "iter":
+                since_iter = []
+            if ev[0] == "test":
+                since_iter.append(ev)
             if ev[0] == "iter":
                 # a new binding of the loop variable: forget keys named by it
                 names = {n.id for n in ast.walk(ev[1].target) if isinstance(n, ast.Name)}
@@ -360,6 +367,9 @@ def check_xstore(ctx: Check, tree: Tree) -> None:
                 if k not in deleted and _may_be_in(kin, node.targets[0].slice, rd):
                     open_par[k] = node
             elif is_del(node, kin):
+                loop = next((a for a in ancestors(node) if isinstance(a, ast.For)), None)
+                if loop is not None:
+                    fam_dels[unparse(loop.iter)] = node
                 k = unparse(node.targets[0].slice)
                 open_par.pop(k, None)
                 kin_keys.pop(k, None)
@@ -368,6 +378,9 @@ def check_xstore(ctx: Check, tree: Tree) -> None:
                 k = unparse(node.targets[0].slice)
                 kin_keys[k] = node
                 deleted.discard(k)
+                for dom, dnode in fam_dels.items():
+                    if isinstance(node.targets[0].slice, ast.Name) and not _guarded_against(since_iter, dom, par, node.targets[0].slice.id):
+                        readds[id(node)] = (node, dnode, dom)
                 if k in par_keys:
                     conflicts[id(par_keys[k])] = (par_keys[k], node)
             elif isinstance(node, ast.Assign) and isinstance(node.targets[0], ast.Name) and node.targets[0].id in {k.split("[")[0] for k in open_par}:
@@ -388,9 +401,59 @@ def check_xstore(ctx: Check, tree: Tree) -> None:
                           "create_expressions() defines every invariant-mass symbol of the topology, so the symbol would be both a parameter and a kinematic variable")
         else:
             ctx.ok("R-XSTORE", tree.loc(node), f"formulate: `{unparse(node)[:70]}` - the key cannot stay in {kin} on any of the {len(paths)} paths")
+    kin_stores = [n for n in walk_function(fn.node) if is_store(n, kin)]
+    for node in kin_stores:
+        key = f"{FORMULATE}::{unparse(node)[:80]}::re-add"
+        if id(node) in readds:
+            _, dnode, dom = readds[id(node)]
+            ctx.violation("R-XSTORE", key, tree.loc(node),
+                          f"formulate: `{unparse(node)[:60]}` can put back a symbol that `{unparse(dnode)}` removed for each element of `{dom}` (those masses are parameters)",
+                          f"on a path that executed the removal, no test in the iteration that stores mentions `{dom}` or tests the key itself against {par}")
+        else:
+            ctx.ok("R-XSTORE", tree.loc(node), f"formulate: `{unparse(node)[:60]}` - every path that removed a family of mass symbols guards the store by that family's domain")
+    check_key_types(ctx, tree, fn, {par, kin})
     for nid, (a, b) in conflicts.items():
         if nid not in par_sites:
             ctx.violation("R-XSTORE", f"{FORMULATE}::{unparse(b)[:80]}::both", tree.loc(b), f"formulate: `{unparse(a)[:60]}` and `{unparse(b)[:60]}` on one path")
+
+
+def _guarded_against(tests: list[tuple], domain: str, par: str, key: str) -> bool:
+    """Does one of the tests evaluated in this iteration exclude the removed family?  Accepted
+    idioms: a test that mentions the family's domain expression, or a membership test of the
+    key itself (the symbol, not a property of it) in the parameter mapping."""
+    for _, test, _ in tests:
+        for n in ast.walk(test):
+            if isinstance(n, (ast.Attribute, ast.Name)) and unparse(n) == domain:
+                return True
+            if isinstance(n, ast.Compare) and len(n.ops) == 1 and isinstance(n.ops[0], (ast.In, ast.NotIn)):
+                if isinstance(n.left, ast.Name) and n.left.id == key and unparse(n.comparators[0]) == par:
+                    return True
+    return False
+
+
+def check_key_types(ctx: Check, tree: Tree, fn: FuncInfo, mappings: set[str]) -> None:
+    """R-KEYTYPE: the parameter and kinematic-variable mappings are keyed by symbols; a lookup
+    with a `str` (`.name`, an f-string, a literal) never matches and silently takes the
+    'absent' branch."""
+    n_sites = 0
+    for n in walk_function(fn.node):
+        key = None
+        if isinstance(n, ast.Compare) and len(n.ops) == 1 and isinstance(n.ops[0], (ast.In, ast.NotIn)) and unparse(n.comparators[0]) in mappings:
+            key = n.left
+        elif isinstance(n, ast.Subscript) and unparse(n.value) in mappings:
+            key = n.slice
+        elif isinstance(n, ast.Call) and isinstance(n.func, ast.Attribute) and n.func.attr in {"get", "pop", "setdefault"} and unparse(n.func.value) in mappings and n.args:
+            key = n.args[0]
+        if key is None:
+            continue
+        n_sites += 1
+        is_str = isinstance(key, ast.JoinedStr) or (isinstance(key, ast.Constant) and isinstance(key.value, str)) or (isinstance(key, ast.Attribute) and key.attr == "name") or (isinstance(key, ast.Call) and isinstance(key.func, ast.Name) and key.func.id == "str")
+        if is_str:
+            ctx.violation("R-KEYTYPE", f"{FORMULATE}::{unparse(n)[:80]}", tree.loc(n), f"formulate: `{unparse(n)[:70]}` looks up a str in a mapping keyed by symbols - it never matches")
+    ctx.stats["symbol_keyed_lookups"] = n_sites
+    if n_sites < 5:
+        raise AnalysisError(f"{FORMULATE}: only {n_sites} lookups into the symbol-keyed mappings (5 confirmed)")
+    ctx.ok("R-KEYTYPE", tree.loc(fn.node), f"formulate: {n_sites} lookups into {sorted(mappings)} all use symbol-valued keys")
 
 
 def _may_be_in(kin: str, key: ast.AST, rd: RD) -> bool:
